@@ -8,7 +8,7 @@ import (
 var stmtKinds = []string{
 	"source", "sink", "decl", "assign", "store", "call", "methodcall", "ifacecall", "funcval", "closure", "defer",
 	"if", "for", "range", "switch", "typeswitch", "commaok", "chan", "copy", "mapops", "generic", "variadic",
-	"methodvalue", "structcopy", "return", "panic", "sanitize", "validate", "globalrw", "goto",
+	"methodvalue", "structcopy", "return", "panic", "sanitize", "validate", "globalrw", "goto", "wild",
 }
 
 var sourceKinds = []struct {
@@ -78,7 +78,7 @@ func (g *gen) sinkStmt() {
 	g.prog.Sinks[line] = name
 	g.prog.SinkFunc[line] = g.curName
 	pre := ""
-	if g.depth > 0 && !g.inDefer && g.chance(12, "defersink") && !g.off("defer-sink") {
+	if g.depth > 0 && !g.inDefer && g.chance(12, "defersink") && !g.off("defer-sink") && !g.off("iface-boxes-ref") {
 		pre = "defer "
 		g.feat("defer-sink")
 	}
@@ -421,7 +421,7 @@ func (g *gen) stmt() {
 		}
 	case "structcopy":
 		if ps, ok := g.pickVar(TPS, "scp"); ok {
-			if g.chance(50, "scpdir") {
+			if g.chance(50, "scpdir") || (g.curFn >= 0 && g.off("callee-stores-ref")) {
 				g.newVar(TS, "*"+ps.name)
 			} else {
 				g.emit("*%s = %s", ps.name, g.expr(TS, 1))
@@ -445,6 +445,8 @@ func (g *gen) stmt() {
 			g.emit("\tpanic(%s)", g.expr(TStr, 1))
 			g.emit("}")
 		}
+	case "wild":
+		g.wildStmt()
 	case "sanitize":
 		g.sanitizeStmt()
 	case "validate":
@@ -488,9 +490,17 @@ func (g *gen) storeStmt() {
 		f    func(v string)
 	}
 	var alts []alt
+	inHelper := g.curFn >= 0
 	add := func(t Type, feat string, f func(v string)) {
 		if g.p.Off[feat] {
 			return
+		}
+		if inHelper && g.p.Off["callee-stores-ref"] {
+			switch feat {
+			case "store-field-deep", "store-field-special", "store-elem-ptr", "map-update-ptr":
+				g.prog.Excluded++
+				return
+			}
 		}
 		if len(g.varsOf(t)) > 0 {
 			alts = append(alts, alt{t, feat, f})
